@@ -43,6 +43,10 @@ SITE_FIELD = {
 }
 
 MUTATION_DRILLS = [
+    {"mutation": "WorkspaceUpdate::Run: var/last_build_time written (own scope, saved at once) at the START instead of after the schemas",
+     "ran": "VERIF_REPO=<worktree> bin/check C13 quick",
+     "fired": "see the drill note in DESIGN.md §9; translator: bf_stamp_last = false -> C13_stamp_written_last fails; start-up sweeps "
+              "(small-startup, bigyaml-startup, small-sys-startup): startup:stale-after-redeploy:* with startup_nothing_to_do > 0"},
     {"mutation": "DictCompiler::Compile: a missing / unloadable / mismatching reverse db no longer sets rebuild_table",
      "ran": "VERIF_REPO=<worktree> bin/check C13 quick",
      "fired": "exit 1 with failing kill points: reverse-window-not-rebuilt and stale-after-redeploy:reverse.bin at "
@@ -250,7 +254,7 @@ def run(ctx):
         os.remove(old)
     facts = build_order.generate()
     ctx.coverage["translated_facts"] = {k: facts[k] for k in ("progs", "call_sites", "remove_before", "create_resizes_existing",
-                                                               "alloc_zeroes", "open_guarded", "save_mode", "save_why")}
+                                                               "alloc_zeroes", "open_guarded", "save_mode", "save_why", "stamp_last", "stamp_why")}
     ctx.coverage["trusted_base"] = [
         "Coq 8.16.1 kernel + vm_compute (finite sweep over the generated facts); no native_compute",
         "translator gen/build_order.py (narrow lexical extraction from table.cc, prism.cc, reverse_lookup_dictionary.cc, "
@@ -267,7 +271,9 @@ def run(ctx):
         "name with the same mtime has the same contents within the history, mtimes are non-zero",
         "wf_srcs: default.yaml exists, listed schemas exist, every schema's dictionary has its source file",
         "the estimated size of a builder's file covers its data (C06's subject): mmap_tagged_complete assumes ext <= fin <= est",
-        "kill points sampled, not exhaustive, for the large (luna_pinyin) workspace",
+        "kill points sampled, not exhaustive, for the large (luna_pinyin) workspace; in quick also for the start-up-path sweeps",
+        "the start-up path sees only what DetectModifications looks at (mtimes of the data directories and of their top-level "
+        "*.yaml files against var/last_build_time)",
     ]
     res = vlib.proof_stage(ctx)
     proof_ok = res["ok"]
@@ -289,9 +295,22 @@ def run(ctx):
     st, pre, m, pm = edit_scenario()
     sweeps.append(("edit", deplib.sweep(T, scratch, "edit", st, pre_state=pre, mtimes=m, pre_mtimes=pm), st, pre))
     sweeps.append(("edit-sys", deplib.sweep(T, scratch, "edit-sys", st, pre_state=pre, mtimes=m, pre_mtimes=pm, mode="sys"), st, pre))
+    # the same kills followed by the frontends' start-up deployment (RimeStartMaintenance(False) through the API in a
+    # fresh process: it deploys only if DetectModifications finds a source newer than var/last_build_time)
+    sweeps.append(("small-startup", deplib.sweep(T, scratch, "small-startup", small, redeploy="startup",
+                                                 max_points=(None if thorough else 70), rng=rng), small, None))
+    sweeps.append(("bigyaml-startup", deplib.sweep(T, scratch, "bigyaml-startup", big, redeploy="startup",
+                                                   max_points=(None if thorough else 30), rng=rng), big, None))
+    sweeps.append(("edit-startup", deplib.sweep(T, scratch, "edit-startup", st, pre_state=pre, mtimes=m, pre_mtimes=pm,
+                                                redeploy="startup", stamp=1500000500, max_points=(None if thorough else 40), rng=rng),
+                   st, pre))
+    sweeps.append(("small-sys-startup", deplib.sweep(T, scratch, "small-sys-startup", small, mode="sys", redeploy="startup"), small, None))
     nl = 60 if thorough else 5
     sweeps.append(("luna", deplib.sweep(T, scratch, "luna", luna_populate, max_points=nl, rng=rng), "data/minimal luna_pinyin + symbols patch", None))
     sweeps.append(("luna-sys", deplib.sweep(T, scratch, "luna-sys", luna_populate, mode="sys", max_points=(40 if thorough else 4), rng=rng),
+                   "data/minimal luna_pinyin + symbols patch", None))
+    sweeps.append(("luna-startup", deplib.sweep(T, scratch, "luna-startup", luna_populate, redeploy="startup",
+                                                max_points=(30 if thorough else 3), rng=rng),
                    "data/minimal luna_pinyin + symbols patch", None))
     if thorough:
         # random synthetic workspaces: vary rows / algebra / imports
@@ -314,12 +333,14 @@ def run(ctx):
         tot_pts += r["points_total"]
         tot_run += r["points_run"]
         per[name] = {"kill_points": r["points_total"], "run": r["points_run"], "load_outcomes": r["outcomes"],
+                     "next_deployment": r.get("redeploy", "full"), "startup_deployed": r.get("startup_started", 0),
+                     "startup_nothing_to_do": r.get("startup_skipped", 0),
                      "table_without_reverse_points": r.get("reverse_window_points", 0),
                      "site_kinds": len(r["sites"]), "failures": len(r["failures"])}
         for f in r["failures"]:
             nfail += 1
             cls = site_class(r["mode"], f.get("site", "-"))
-            key = "%s@%s" % (f["kind"], cls)
+            key = "%s%s@%s" % ("startup:" if r.get("redeploy") == "startup" else "", f["kind"], cls)
             if key in seen:
                 continue
             seen.add(key)
@@ -330,7 +351,10 @@ def run(ctx):
                              "<ws>/user <ws>/shared <ws>/user/build` of the hooks-on build with "
                              + ("VERIF_DEPLOY_CRASH_AT=<kill_point>" if r["mode"] == "hook" else
                                 "LD_PRELOAD=_work/bin/killpoint.so VERIF_KILL_DIR=<ws>/user VERIF_KILL_AT=<kill_point>")
-                             + " (exit 137), run `<run dir>/snap-plain/bin/deptool probe-all <ws>/user/build`, deploy again without the "
+                             + " (exit 137); "
+                             + ("the next deployment is the start-up path: `<run dir>/snap-plain/bin/deptool startup <ws>/user "
+                                "<ws>/shared <ws>/user/build check` (RimeStartMaintenance(False) + join); " if r.get("redeploy") == "startup" else "")
+                             + "run `<run dir>/snap-plain/bin/deptool probe-all <ws>/user/build`, deploy again without the "
                                "variable and compare `deptool dump` with that of a clean deployment",
                       "cmd": "bin/check C13 %s" % ctx.tier}
             ctx.violation(key, "kill at %s (%s, scenario %s): %s" % (f.get("site"), r["mode"], name, f["kind"]), replay, found_input=True)
